@@ -117,13 +117,16 @@ func (p *Pipe) Generate(progs []*corpus.Program, workers int) {
 }
 
 // RunCLI runs the generator on the item's declaration files.
-func (p *Pipe) RunCLI(it *Item) {
+func (p *Pipe) RunCLI(it *Item) { p.RunCLIEnv(it, nil) }
+
+// RunCLIEnv is RunCLI with extra environment variables.
+func (p *Pipe) RunCLIEnv(it *Item, env []string) {
 	t0 := time.Now()
 	args := []string{}
 	for _, f := range it.Prog.SourceFiles() {
 		args = append(args, filepath.Join(it.Prog.Pkg, f))
 	}
-	out, err := load.Run(p.CorpusDir, false, 2*time.Minute, nil, p.CLI, args...)
+	out, err := load.Run(p.CorpusDir, false, 2*time.Minute, env, p.CLI, args...)
 	it.CLIOut, it.CLIErr = string(out), err
 	it.Elapsed = time.Since(t0)
 	it.GenSrc = map[string]string{}
